@@ -138,8 +138,9 @@ def run_c14(out, tier, seed, replay):
     sel = [p for p in progs_all if (p["name"], "to") in mods]
     pidx = {p["name"]: i + 1 for i, p in enumerate(sel)}
     byname = {p["name"]: p for p in sel}
-    gen, by = semlib.enumerate_inputs(sel, work, "quick")
-    out.add_tlc(gen, "SemGen (input databases)")
+    gen, by = semlib.enumerate_inputs(sel, work, "quick", cfg="SemGen_timeout.cfg")
+    out.add_tlc(gen, "SemGen + TimeoutTheorem (SemiNaive.tla: every database a deadline can leave behind is below the least model "
+                     "and a fresh evaluation from it reaches exactly the least model), on every enumerated input database")
     cap = 12 if tier == "quick" else 80
     # phase 1: learn the number of deadline checks of an uninterrupted run
     probe, pmeta = [], {}
